@@ -484,7 +484,10 @@ func (c *copier) isLinkSource(path string) bool {
 		return false
 	}
 	fi, err := os.Lstat(path)
-	return err == nil && os.SameFile(recorded, fi)
+	// the inode number alone does not identify the file: a file system may give
+	// the number of a removed file to the next entry created (ext4 does), for
+	// instance to the symlink that replaced it
+	return err == nil && fi.Mode().IsRegular() && os.SameFile(recorded, fi)
 }
 
 func (c *copier) notifyChange(target string, fi os.FileInfo) error {
